@@ -435,3 +435,37 @@ def krstrip_styled_rows(r0: int, c0: int, e_rows: int, aggressive: bool, qx: int
     snap = snapshot(t._n)
     t.rstrip(aggressive=aggressive)
     return done(ok and snapshot(t._n) == snap and t.height == eh)
+
+
+def ktrans_ragged(w0: int, w1: int, rep: int, qx: int, qy: int) -> bool:
+    """
+    pre: 1 <= w0 <= 3 and 1 <= w1 <= 3 and 1 <= rep <= 2 and 0 <= qx <= 3 and 0 <= qy <= 3
+    post: _
+    """
+    # ragged table: a first row of w0 cells (value 1), then `rep` rows of w1 cells (value 2); missing
+    # cells read as empty; transposing moves (x, y) to (y, x), twice gives the original values back
+    from ktable import Node, KTable
+    tn = Node("table")
+    col = Node("column", None, max(w0, w1))
+    col.parent = tn
+    tn.kids.append(col)
+    for val, width, r in ((1, w0, 1), (2, w1, rep)):
+        rn = Node("row", None, r)
+        c = Node("cell", val, width)
+        c.parent = rn
+        rn.kids.append(c)
+        rn.parent = tn
+        tn.kids.append(rn)
+    t = KTable(_node=tn)
+
+    def orig(x, y):
+        if y == 0:
+            return 1 if x < w0 else None
+        if y <= rep:
+            return 2 if x < w1 else None
+        return None
+
+    t.transpose()
+    ok = t.get_value((qy, qx)) == orig(qx, qy)
+    t.transpose()
+    return done(ok and t.get_value((qx, qy)) == orig(qx, qy) and x_value(t._n, qx, qy) == orig(qx, qy))
